@@ -106,6 +106,9 @@ func caseFeatures(c Case, e *Expect) []string {
 	if equalHook {
 		out = append(out, "hook_equal_to_another_partys")
 	}
+	if c.Fixture < numFixtures && c.Kind == "update" && subscribers(c.Fixture, "update") == 0 {
+		out = append(out, "update_request_nobody_is_subscribed_to")
+	}
 	if c.Fixture < numFixtures {
 		pre, ext := false, false
 		for _, s := range c.Chain {
